@@ -9,8 +9,9 @@ pub struct AssocLog {
     pub ghost to_client: Seq<(Seq<u8>, Address, SocketAddr, SessRec)>,
 }
 /// the ids a datagram travels with
-pub struct SessRec { pub csid: u64, pub ssid: u64, pub pid: u64 }
-spec fn sess_rec<const N: usize>(s: udp__Session<N>) -> SessRec { SessRec { csid: s.client_session_id, ssid: s.server_session_id, pid: s.packet_id } }
+pub struct SessRec { pub csid: u64, pub ssid: u64, pub pid: u64, pub uh: Option<Seq<u8>> }
+spec fn user_hash_of<const N: usize>(u: Option<Arc<ServerUser<N>>>) -> Option<Seq<u8>> { match u { Some(a) => Some(a.identity_hash@), None => None } }
+spec fn sess_rec<const N: usize>(s: udp__Session<N>) -> SessRec { SessRec { csid: s.client_session_id, ssid: s.server_session_id, pid: s.packet_id, uh: user_hash_of(s.user) } }
 /// tokio::select!: any branch may be the one that completes
 #[verifier::external_body]
 fn verif_select(n: usize) -> (r: usize) ensures r < n { unimplemented!() }
@@ -52,6 +53,12 @@ impl<const N: usize> Receiver<(BytesMut, Address, udp__Session<N>)> {
             match r { Some(m) => final(vlog).from_client == old(vlog).from_client.push((m.0@, m.1, sess_rec(m.2))), None => final(vlog).from_client == old(vlog).from_client },
     { unimplemented!() }
 }
+/// manager/shadowsocks.rs impl PartialEq for ServerUser (compares identity hashes): NOT verified and without contract - vstd has no specification for
+/// array / Arc comparisons, so `self.user != session.user` in relay is an oracle for the proofs below
+impl<const N: usize> PartialEq for ServerUser<N> {
+    #[verifier::external_body]
+    fn eq(&self, other: &Self) -> bool { unimplemented!() }
+}
 impl Address {
     /// protocol/address.rs to_socket_addr (DNS): not verified, any answer
     #[verifier::external_body]
@@ -82,6 +89,22 @@ proof fn lemma_assoc_hist_push(fs: Seq<PacketWindowFilter>, m: Seq<(Seq<u8>, Add
         if i < m.len() { assert(step_ok(fs[i], assoc_ids(m)[i], assoc_limits(m.len())[i], fs[i + 1], rs[i])); }
     }
 }
+/// the datagrams the association serves: `flags[i]` is false for a datagram that is turned away because it belongs to another user than the session's owner
+spec fn assoc_pick(m: Seq<(Seq<u8>, Address, SessRec)>, flags: Seq<bool>) -> Seq<(Seq<u8>, Address, SessRec)>
+    decreases m.len()
+{
+    if m.len() == 0 || flags.len() != m.len() { Seq::empty() } else {
+        let p = assoc_pick(m.drop_last(), flags.drop_last());
+        if flags.last() { p.push(m.last()) } else { p }
+    }
+}
+proof fn lemma_assoc_pick_push(m: Seq<(Seq<u8>, Address, SessRec)>, flags: Seq<bool>, x: (Seq<u8>, Address, SessRec), f: bool)
+    requires flags.len() == m.len()
+    ensures assoc_pick(m.push(x), flags.push(f)) == (if f { assoc_pick(m, flags).push(x) } else { assoc_pick(m, flags) })
+{
+    assert(m.push(x).drop_last() =~= m);
+    assert(flags.push(f).drop_last() =~= flags);
+}
 spec fn assoc_payloads(t: Seq<(Seq<u8>, SocketAddr)>) -> Seq<Seq<u8>> { Seq::new(t.len(), |i: int| t[i].0) }
 proof fn lemma_assoc_accepted_push(m: Seq<(Seq<u8>, Address, SessRec)>, rs: Seq<bool>, x: (Seq<u8>, Address, SessRec), r: bool)
     requires rs.len() == m.len()
@@ -109,14 +132,17 @@ impl<const N: usize> UdpAssociateContext<N> {
     // termination is not claimed: the task serves its session for as long as messages arrive
     #[verifier::exec_allows_no_decreases_clause]
     fn relay(&mut self, mut receiver: Receiver<(BytesMut, Address, udp__Session<N>)>, Tracked(vlog): Tracked<&mut AssocLog>)
-        requires fresh(old(self).client_session_filter), old(vlog).from_client.len() == 0, old(vlog).to_target.len() == 0, old(vlog).from_target.len() == 0, old(vlog).to_client.len() == 0,
+        requires fresh(old(self).client_session_filter), old(self).user is None, old(vlog).from_client.len() == 0, old(vlog).to_target.len() == 0, old(vlog).from_target.len() == 0, old(vlog).to_client.len() == 0,
         ensures
             //#C11 C02
             // every client datagram of the session passes exactly one step of the replay window, in arrival order ..
             // .. and is handed to the outbound socket, whole and once, iff the window accepted its packet id (a refused one is dropped and the session
             // goes on; only the datagram during which the session ends - target unresolvable - may be left unjudged)
-            exists|fs: Seq<PacketWindowFilter>, rs: Seq<bool>, k: int| k <= final(vlog).from_client.len() <= k + 1 && #[trigger] assoc_hist(fs, final(vlog).from_client.take(k), rs)
-                && assoc_payloads(final(vlog).to_target) == assoc_accepted(final(vlog).from_client.take(k), rs),
+            exists|fs: Seq<PacketWindowFilter>, rs: Seq<bool>, flags: Seq<bool>, k: int| k <= final(vlog).from_client.len() <= k + 1 && flags.len() == k
+                // (only a datagram of another user than the session's owner is turned away unjudged; the datagram that opens the session never is)
+                && (k > 0 ==> flags[0])
+                && #[trigger] assoc_hist(fs, assoc_pick(final(vlog).from_client.take(k), flags), rs)
+                && assoc_payloads(final(vlog).to_target) == assoc_accepted(assoc_pick(final(vlog).from_client.take(k), flags), rs),
             //#C12 C02
             // replies carry this session's ids and a packet id that goes up by one each time; the session ends rather than reuse one
             forall|i: int| 0 <= i < final(vlog).to_client.len() ==> (#[trigger] final(vlog).to_client[i]).3.pid == old(self).server_packet_id + i + 1
@@ -132,12 +158,16 @@ impl<const N: usize> UdpAssociateContext<N> {
         let ghost mut rs: Seq<bool> = Seq::empty();
         let ghost spid0 = self.server_packet_id;
         let ghost mut dropping = false;
-        proof { assert(assoc_payloads(vlog.to_target) =~= assoc_accepted(vlog.from_client, rs)); assert(assoc_hist(fs, vlog.from_client, rs)); }
+        let ghost mut flags: Seq<bool> = Seq::empty();
+        proof { assert(assoc_pick(vlog.from_client, flags) =~= Seq::empty()); assert(assoc_payloads(vlog.to_target) =~= assoc_accepted(assoc_pick(vlog.from_client, flags), rs)); assert(assoc_hist(fs, assoc_pick(vlog.from_client, flags), rs)); }
         loop
             invariant_except_break
-                assoc_hist(fs, vlog.from_client, rs),
+                flags.len() == vlog.from_client.len(),
+                self.user is Some ==> flags.len() > 0,
+                flags.len() > 0 ==> flags[0],
+                assoc_hist(fs, assoc_pick(vlog.from_client, flags), rs),
                 fs.last() == self.client_session_filter,
-                assoc_payloads(vlog.to_target) == assoc_accepted(vlog.from_client, rs),
+                assoc_payloads(vlog.to_target) == assoc_accepted(assoc_pick(vlog.from_client, flags), rs),
                 vlog.to_client.len() == vlog.from_target.len(),
             invariant
                 self.client_session_id == old(self).client_session_id, self.server_session_id == old(self).server_session_id, self.client_addr == old(self).client_addr,
@@ -153,8 +183,10 @@ impl<const N: usize> UdpAssociateContext<N> {
                 // a refused (duplicate or stale) packet never ends the session: the task leaves its loop only when its channel is closed, a socket fails,
                 // the target cannot be resolved or the server packet id would overflow
                 !dropping,
-                exists|fs: Seq<PacketWindowFilter>, rs: Seq<bool>, k: int| k <= vlog.from_client.len() <= k + 1 && #[trigger] assoc_hist(fs, vlog.from_client.take(k), rs)
-                    && assoc_payloads(vlog.to_target) == assoc_accepted(vlog.from_client.take(k), rs),
+                exists|fs: Seq<PacketWindowFilter>, rs: Seq<bool>, flags: Seq<bool>, k: int| k <= vlog.from_client.len() <= k + 1 && flags.len() == k
+                    && (k > 0 ==> flags[0])
+                    && #[trigger] assoc_hist(fs, assoc_pick(vlog.from_client.take(k), flags), rs)
+                    && assoc_payloads(vlog.to_target) == assoc_accepted(assoc_pick(vlog.from_client.take(k), flags), rs),
         {
             proof { dropping = false; assert(vlog.from_client.take(vlog.from_client.len() as int) =~= vlog.from_client); }
             match verif_select(2) {
@@ -199,21 +231,30 @@ impl<const N: usize> UdpAssociateContext<N> {
                                     break;
                                 },
                             };
+                            // a session belongs to the user who opened it: a datagram of another user that carries its session id is not served here
+                            if self.user.is_some() && self.user != session.user {
+                                /*R2*/
+                                proof { lemma_assoc_pick_push(m0, flags, msg, false); flags = flags.push(false); }
+                                continue;
+                            }
+                            proof { lemma_assoc_pick_push(m0, flags, msg, true); }
+                            let ghost j0 = assoc_pick(m0, flags);
+                            proof { flags = flags.push(true); }
                             let ghost f_before = self.client_session_filter;
                             if !self.validate_packet_id(session.packet_id) {
                                 // a duplicate or stale packet is dropped; the session goes on
                                 /*R2*/
                                 proof {
-                                    lemma_assoc_hist_push(fs, m0, rs, msg, self.client_session_filter, false);
-                                    lemma_assoc_accepted_push(m0, rs, msg, false);
+                                    lemma_assoc_hist_push(fs, j0, rs, msg, self.client_session_filter, false);
+                                    lemma_assoc_accepted_push(j0, rs, msg, false);
                                     fs = fs.push(self.client_session_filter); rs = rs.push(false);
                                     dropping = true;
                                 }
                                 continue;
                             }
                             proof {
-                                lemma_assoc_hist_push(fs, m0, rs, msg, self.client_session_filter, true);
-                                lemma_assoc_accepted_push(m0, rs, msg, true);
+                                lemma_assoc_hist_push(fs, j0, rs, msg, self.client_session_filter, true);
+                                lemma_assoc_accepted_push(j0, rs, msg, true);
                                 fs = fs.push(self.client_session_filter); rs = rs.push(true);
                             }
                             self.user = session.user.clone();
